@@ -24,7 +24,7 @@ STORAGE = ["plain", "transposed", "strided", "reshaped", "shared-base"]
 def gen_cases(tier, seed):
     rng = gen.rng_for(seed, "c11", tier)
     cases = []
-    budget = {"quick": 120, "thorough": 4000}[tier]
+    budget = {"quick": 240, "thorough": 4000}[tier]
     for name, op in OPS.items():
         g = catalog.grid(name, tier, rng)
         items = [(s, a, f) for s, a in g for f in op.forms if not (f in ("left", "right") and a.get("side") != f)]
@@ -36,7 +36,7 @@ def gen_cases(tier, seed):
                 vopts = list(vopts) + ["nonneg-withzeros"]      # purity holds on the boundary of the domain too (exact zeros: infinite derivatives, guards)
             cases.append({"kind": "tensor", "op": name, "form": form, "shapes": shapes, "args": args, "vclass": vopts[n % len(vopts)],
                           "storage": STORAGE[n % len(STORAGE)], "dtype": ["float64", "float32"][n % 2], "seed": int(rng.integers(2 ** 31))})
-    for c in nncommon.build_cases(tier, seed, "c11", budget={"quick": 100, "thorough": 2500}[tier]):
+    for c in nncommon.build_cases(tier, seed, "c11", budget={"quick": 200, "thorough": 2500}[tier]):
         c["kind"] = "nn"
         if c["n"] % 3 == 0 and c["op"] in ("relu", "leaky_relu", "selu", "tanh", "sigmoid", "softmax", "log_softmax", "bce_with_logits", "cross_entropy"):
             c["a"] = dict(c["a"], vclass="large")            # saturating magnitudes: clamps / overflow guards must not be written into the operand
@@ -45,7 +45,7 @@ def gen_cases(tier, seed):
         c["mixed"] = [None, None, "input-other-float", None, "hard-int-target", "input-int", "hard-bool-target"][c["n"] % 7]
         c["dtype"] = ["float64", "float32"][c["n"] % 2]
         cases.append(c)
-    for k in range(60 if tier == "quick" else 6000):
+    for k in range(200 if tier == "quick" else 6000):
         cases.append({"kind": "program", "seed": int(rng.integers(2 ** 31)), "n_instr": int(rng.integers(3, 25))})
     for k in range(6 if tier == "quick" else 60):
         cases.append({"kind": "mutators", "seed": int(rng.integers(2 ** 31))})
